@@ -11,7 +11,13 @@ V = "/verif"
 # which checks are expected to see a seeded defect (default: the seed's own property)
 ALSO = {"C15-2": ["C08"], "C13-2": ["C20"], "C18-2": ["C05", "C06"], "C12-2": ["C05"], "C07-1": ["C05"], "C02-2": ["C13"],
         "C01-1": ["C04"], "C05-1": ["C12"], "C01-4": ["C11"], "C08-3": ["C09"], "C08-4": ["C20"], "C18-4": ["C20"],
-        "C07-5": ["C05"], "C12-5": ["C05"], "C04-3": ["C01"], "C06-1": ["C05"], "C14-5": ["C03"]}
+        "C07-5": ["C05"], "C12-5": ["C05"], "C04-3": ["C01"], "C06-1": ["C05"], "C14-5": ["C03"],
+        # round 3 (k = 6..8)
+        "C01-6": ["C11", "C12"], "C11-7": ["C01", "C12"], "C09-7": ["C08"], "C08-6": ["C09"], "C09-6": ["C20"], "C08-7": ["C09", "C13"],
+        "C06-7": ["C05"], "C05-8": ["C06"], "C06-8": ["C05"], "C05-7": ["C06"], "C06-6": ["C05"], "C07-7": ["C12", "C05"],
+        "C12-7": ["C07", "C05"], "C13-6": ["C05"], "C14-7": ["C12", "C20"], "C12-8": ["C14", "C20"], "C03-7": ["C14"], "C14-6": ["C03"],
+        "C04-6": ["C03"], "C03-6": ["C04"], "C17-8": ["C20", "C12"], "C13-7": ["C09"], "C18-6": ["C05", "C06"], "C07-8": ["C20"],
+        "C01-7": ["C04"], "C01-8": ["C04"], "C03-8": ["C02"], "C12-6": ["C14"], "C13-8": ["C05", "C12"], "C05-6": ["C18"]}
 
 
 def run_seed(pid):
